@@ -11,9 +11,14 @@ res = {"dir": d, "at": time.strftime("%Y-%m-%d %H:%M:%S")}
 try:
     r = run("git -C /repo worktree add -q --detach %s HEAD" % wt); assert r.returncode == 0, r.stdout
     env = "cd %s && PYTHONPATH=%s PYTHONHASHSEED=0 " % (wt, wt)
-    r = run(env + "timeout 900 /venv/bin/python %s/demo.py" % d); res["demo_clean_rc"] = r.returncode; res["demo_clean_tail"] = r.stdout[-300:]
+    extra = ""
+    r = run(env + "timeout 900 /venv/bin/python %s/demo.py" % d)
+    if r.returncode != 0 and "AssertionError" in r.stdout and "cloudsync/__init__.py" in r.stdout:
+        extra = " --any"          # some demonstrations insist on their author's worktree path unless told otherwise
+        r = run(env + "timeout 900 /venv/bin/python %s/demo.py%s" % (d, extra))
+    res["demo_clean_rc"] = r.returncode; res["demo_clean_tail"] = r.stdout[-300:]
     r = run("git -C %s apply %s/patch.diff" % (wt, d)); res["apply_rc"] = r.returncode; res["apply_out"] = r.stdout[-300:]
-    r = run(env + "timeout 900 /venv/bin/python %s/demo.py" % d); res["demo_patched_rc"] = r.returncode; res["demo_patched_tail"] = r.stdout[-600:]
+    r = run(env + "timeout 900 /venv/bin/python %s/demo.py%s" % (d, extra)); res["demo_patched_rc"] = r.returncode; res["demo_patched_tail"] = r.stdout[-600:]
     if not nosuite:
         junit = os.path.join(wt, "junit.xml")
         r = run("cd %s && timeout 1500 /venv/bin/python -m pytest -q -p no:cacheprovider --timeout=900 --continue-on-collection-errors --junitxml=%s > /dev/null 2>&1" % (wt, junit))
